@@ -31,7 +31,10 @@ TRUSTED_BASE = ['model PcbV.Model.ClearChain is a hand transcription of _clear_a
                 'DataSegment.clear/preserve_commons, Interpreter.clear/clear_stacks_and_pointers (repaired code)',
                 'the translation of a generated scenario into BASIC text and into the abstract pre-state of the model',
                 'probe statements (GOTO into the stopped program, OPTION BASE/ERASE probe, type probe by 1/3)']
-ASSUMPTIONS = ['values used are exactly representable (integers, k/8), so PRINT-free comparison through get_variable is exact',
+ASSUMPTIONS = ['the error-handling-in-progress state is read from Interpreter.error_handle_mode right after the reset '
+               'statement (soft internal peek: an absent attribute means not observed); every later behavioural probe would '
+               'reset it with its first untrapped error',
+               'values used are exactly representable (integers, k/8), so PRINT-free comparison through get_variable is exact',
                'event traps are observed through BasicEvents internals only when accessible (not part of the statement)']
 
 TOTAL0 = 65534
@@ -709,6 +712,13 @@ def _run(sc, s):
     top_after = total - stack - 2
     obs = {}
     obs['err_op'] = err_of(out_op)
+    # "an error handler is in progress" is error-trap state too: if it survived, a later ON ERROR GOTO would not trap
+    # the next error.  Read from the interpreter (internal peek, soft: absent attribute = not observed) right after the
+    # statement: the first untrapped error of the probes below resets it.
+    try:
+        obs['inh'] = 1 if s._impl.interpreter.error_handle_mode else 0
+    except Exception:       # noqa
+        obs['inh'] = 0
     # a CHAIN whose file cannot be opened must leave everything as it was (the file is opened first)
     nofile = kind == 'chain' and not op['exists']
     # ---- probes (order matters) ----
@@ -1104,6 +1114,9 @@ def oracle(ctx, sc, r):
         fail('gosub-stack-survives', 'RETURN after the reset did not raise RETURN without GOSUB')
     if obs['trap']:
         fail('error-trap-survives', 'ERROR 78 gave %r' % obs['trap_out'])
+    if obs.get('inh'):
+        fail('error-handler-state-survives', 'the interpreter still is in error-handling mode after the reset (it was '
+             'executed inside an ON ERROR handler): the next trapped error would be fatal')
     if obs['math']:
         fail('math-error-trap-survives', 'PRINT 1/0 gave %r (soft handling stays suspended)' % obs['math_out'])
     if obs['err'] != (e or 0):
